@@ -154,7 +154,10 @@ pub fn run_terminal_canary<Q: Par<Item = Canary>>(p: Q, ctx: &mut Ctx, full: boo
         }
         TermD::Count => Outcome::Num(p.count() as u64),
         TermD::Reduce(r) => {
-            let o = p.reduce(move |a: Canary, b: Canary| Canary::new(r.apply(a.val, b.val)));
+            let o = p.reduce(move |a: Canary, b: Canary| {
+                crate::exec::red_gate();
+                Canary::new(r.apply(a.val, b.val))
+            });
             Outcome::Opt(o.map(|c| c.val))
         }
         TermD::Find(pd) => {
